@@ -286,10 +286,8 @@ class Names:
             if allow_keyword and r.random() < self.keyword_rate:
                 kw = r.choice([k for k in KEYWORDS if k not in ("Self", "macro_rules")])
                 words = (kw,) if r.random() < 0.6 else (kw, r.choice(self.pool))
-                if len(words) == 1:
-                    st = r.choice(["camel", "snake", "kebab", "dotted"])      # styles that leave a lone word lower-case
-                else:
-                    st = style or r.choice(self.styles)
+                # every style: `Move`, `MOVE` become the keyword `move` once snake-cased (as a type name `Move` is no keyword)
+                st = style or r.choice(self.styles)
             else:
                 n = min(r.choice([1, 2, 2, 3][: self.max_words + 1]), len(self.pool))
                 words = tuple(r.sample(self.pool, n))
